@@ -94,10 +94,22 @@ pub fn run_scenario(sc: &Scenario) -> Judged {
     let mut history: Vec<Pos> = vec![Pos::startpos()];
     let mut position_cmds_since_newgame = 0;
     let mut go_since_newgame = false;
+    let mut advertised: Vec<String> = vec![];
     'lines: for line in &sc.lines {
+        let expanded;
+        let line = if let Some(k) = line.strip_prefix("@setoption ") {
+            expanded = setoption_for(&advertised, k.trim().parse::<usize>().unwrap_or(0));
+            j.probes.add(if advertised.is_empty() { "setoption_standard_option_sent" } else { "setoption_advertised_option_sent" }, 1);
+            &expanded
+        } else {
+            line
+        };
         let tok = line.split_whitespace().next().unwrap_or("");
         let out0 = sess.out_len();
         let o = sess.cmd(line);
+        if tok == "uci" {
+            advertised = sess.out_since(out0).iter().filter(|l| l.starts_with("option name ")).cloned().collect();
+        }
         if let Outcome::Crash(m) = &o {
             j.violations.push(("crash".into(), format!("'{}': {}", line, m)));
             break;
@@ -191,10 +203,15 @@ pub fn run_scenario(sc: &Scenario) -> Judged {
                 }
                 let _ = last;
             }
-            "go" if line.contains("movetime 100000000") => {
-                // a clock-limited search cut by the clock: the verdicts must be what they were
-                go_since_newgame = true;
-                j.probes.add("interrupted_searches_followed_by_verdict_queries", 1);
+            _ if (tok == "go" && line.contains("movetime 100000000")) || (["isready", "setoption", "stop", "ponderhit", "debug", "register", "uci"].contains(&tok) && position_cmds_since_newgame > 0) => {
+                // a clock-limited search cut by the clock, or a command a GUI may send at any
+                // time: the verdicts must be what they were
+                if tok == "go" {
+                    go_since_newgame = true;
+                    j.probes.add("interrupted_searches_followed_by_verdict_queries", 1);
+                } else {
+                    j.probes.add("anytime_commands_followed_by_verdict_queries", 1);
+                }
                 let occs = occurrences(&history);
                 let root = sess.board();
                 let succ_boards: Vec<(String, engine::board::Board)> = with_bench(|b| b.reference.gen.generate_moves(&root).iter().map(|m| (m.to_algebraic(), root.clone_with_move(m))).collect());
@@ -210,7 +227,7 @@ pub fn run_scenario(sc: &Scenario) -> Judged {
                     j.successors_checked += 1;
                     if got != want {
                         let class = if want { "third_occurrence_not_draw" } else { "draw_claimed_too_early" };
-                        j.violations.push((class.into(), format!("after '{}' and a go cut by the clock: move {} leads to a position that occurred {} time(s) before; engine's repetition verdict is {}", shorten(&sc.lines.iter().rev().find(|l| l.starts_with("position")).cloned().unwrap_or_default()), oc.mv.uci(), oc.occ_recorded, got)));
+                        j.violations.push((class.into(), format!("after '{}' and then '{}': move {} leads to a position that occurred {} time(s) before; engine's repetition verdict is {}", shorten(&sc.lines.iter().rev().find(|l| l.starts_with("position")).cloned().unwrap_or_default()), shorten(line), oc.mv.uci(), oc.occ_recorded, got)));
                         break 'lines;
                     }
                 }
@@ -573,10 +590,66 @@ pub fn generate(seed: u64) -> Scenario {
             forced.push((ord, rng.log_range(1, 3000)));
         }
     }
+    // in one session of three a GUI-anytime command (isready, an option, stop, ...) follows a
+    // position command that has a history; the verdicts are asked again after it: only the
+    // next position command or ucinewgame may change what the history is. `uci` first, so that
+    // the options the engine advertises are known ("@setoption k" = the k-th of them, or a
+    // standard one when it advertises none).
+    if rng.chance(1, 3) {
+        let idx: Vec<usize> = lines.iter().enumerate().filter(|(_, l)| l.starts_with("position") && l.contains(" moves ")).map(|(i, _)| i).collect();
+        if !idx.is_empty() {
+            let i = *rng.pick(&idx);
+            let n = rng.range(1, 2) as usize;
+            for k in 0..n {
+                let l = match rng.below(8) {
+                    0 => "isready".to_string(),
+                    1 => "setoption name Hash value 32".to_string(),
+                    2 | 3 => "setoption name Clear Hash".to_string(),
+                    4 => "stop".to_string(),
+                    5 => "ponderhit".to_string(),
+                    _ => format!("@setoption {}", rng.below(8)),
+                };
+                lines.insert(i + 1 + k, l);
+            }
+            // search ordinals of the forced expiries behind the insertion point are unchanged
+            // (none of these lines starts a search)
+            lines.insert(0, "uci".to_string());
+        }
+    }
     Scenario {
         lines,
         key_seed: rng.next_u64(),
         forced,
+    }
+}
+
+/// What a GUI does with the options an engine advertised in its `uci` reply: presses the
+/// button, sets a spin to a value inside its range, flips a check box.
+fn setoption_for(advertised: &[String], k: usize) -> String {
+    if advertised.is_empty() {
+        return ["setoption name Clear Hash", "setoption name Hash value 1", "setoption name Hash value 128", "setoption name Ponder value false", "setoption name MultiPV value 1", "setoption name Threads value 1", "setoption name UCI_AnalyseMode value true", "setoption name Clear Hash"][k % 8].to_string();
+    }
+    let l = &advertised[k % advertised.len()];
+    let t: Vec<&str> = l.split_whitespace().collect();
+    // option name <words> type <t> [default x] [min a] [max b] [var ...]
+    let ni = t.iter().position(|&x| x == "name").map(|i| i + 1).unwrap_or(2);
+    let ti = t.iter().position(|&x| x == "type").unwrap_or(t.len());
+    let name = t[ni.min(ti)..ti].join(" ");
+    let ty = t.get(ti + 1).copied().unwrap_or("button");
+    let field = |f: &str| t.iter().position(|&x| x == f).and_then(|i| t.get(i + 1)).map(|s| s.to_string());
+    match ty {
+        "button" => format!("setoption name {}", name),
+        "check" => format!("setoption name {} value {}", name, if k % 2 == 0 { "true" } else { "false" }),
+        "spin" => {
+            let v = match k % 3 {
+                0 => field("min"),
+                1 => field("max"),
+                _ => field("default"),
+            };
+            format!("setoption name {} value {}", name, v.unwrap_or_else(|| "1".to_string()))
+        }
+        "combo" => format!("setoption name {} value {}", name, field("var").unwrap_or_else(|| "x".to_string())),
+        _ => format!("setoption name {} value {}", name, field("default").unwrap_or_else(|| "x".to_string())),
     }
 }
 
